@@ -2358,6 +2358,223 @@ def part_container_registries(ctx, U, use_driver=True):
         ctx.count("container:scenarios")
 
 
+# ----------------------------------------------------------------------------------------
+# the TYPE KEY itself: deep_type on nested values whose scalars are ==-equal but differently typed
+# ----------------------------------------------------------------------------------------
+
+def py_deep_type(U, v):
+    """reference deep_type: python object -> type tree, a function of the (nested) TYPES of v only
+    (mirror of Lean `deepType`; scalars by exact class, tuples element-wise, frozensets by the widening
+    loop of `_deep_type_frozenset` in iteration order, funsor terms by origin class and argument types)"""
+    from funsor.terms import Funsor
+    if isinstance(v, Funsor):
+        return ("g", U.ids[get_origin(type(v))], tuple(py_deep_type(U, c) for c in v._ast_values))
+    if isinstance(v, tuple):
+        return ("t", tuple(py_deep_type(U, c) for c in v)) if v else ("tb",)
+    if isinstance(v, frozenset):
+        if not v:
+            return ("fb",)
+        ts = [py_deep_type(U, c) for c in v]
+        tp = ts[0]
+        for t in ts:
+            if not py_sub(U, t, tp):
+                tp = {"t": ("c", U.kTuple), "tb": ("c", U.kTuple), "f": ("c", U.kFs), "fb": ("c", U.kFs)}.get(tp[0], ("g", tp[1], ()) if tp[0] == "g" else tp)
+            if not py_sub(U, t, tp):
+                raise NotImplementedError
+        return ("f", tp)
+    if type(v) not in U.ids:
+        raise Unsupported(repr(type(v)))
+    return ("c", U.ids[type(v)])
+
+
+def vsrc(v):
+    """python source of a nested scalar value"""
+    if isinstance(v, tuple):
+        return "(" + "".join(vsrc(x) + ", " for x in v) + ")"
+    if isinstance(v, frozenset):
+        return "frozenset([" + ", ".join(vsrc(x) for x in v) + "])"
+    if isinstance(v, np.generic):
+        return f"numpy.{type(v).__name__}({v.item()!r})"
+    return repr(v)
+
+
+EQ_GROUPS = [
+    [True, 1, 1.0, np.int64(1), np.float64(1.0), complex(1.0)],
+    [False, 0, 0.0, np.int64(0), np.float64(0.0), complex(0.0)],
+    [2, 2.0, np.int64(2), np.float64(2.0)],
+]
+
+SHAPES = [          # h = a hole filled from one equality group; tag = a string unique to the pair
+    lambda h, tag: (h(), h()),
+    lambda h, tag: (tag, (h(), h())),
+    lambda h, tag: ((h(),), h()),
+    lambda h, tag: (tag, frozenset([h()])),
+    lambda h, tag: ((h(), (h(), h())), tag),
+    lambda h, tag: ((tag, (h(), h())), ("b", (h(),))),
+    lambda h, tag: (tag, ((h(), h()), (h(), h()))),
+    lambda h, tag: frozenset([(tag, h())]),
+    lambda h, tag: (tag, (frozenset([h()]), h())),
+    lambda h, tag: (((h(),),),),
+]
+
+PY_DEEPTYPE = """
+# replay for C16: deep_type must be a function of the (nested) types of its argument only
+import numpy, typing
+from typing import Tuple, FrozenSet
+import funsor; funsor.set_backend("numpy")
+from funsor.typing import deep_type
+A = {a}
+B = {b}
+assert A == B and hash(A) == hash(B)
+def fresh_type(v):      # element-wise, no caches involved
+    if isinstance(v, tuple):
+        return Tuple[tuple(fresh_type(x) for x in v)] if v else Tuple
+    if isinstance(v, frozenset):
+        return FrozenSet[fresh_type(next(iter(v)))] if v else FrozenSet
+    return type(v)
+seq = [A, B, A] if {a_first} else [B, A, B]
+got = [deep_type(v) for v in seq]
+want = [fresh_type(v) for v in seq]
+print(got, want)
+FAILS = got != want
+"""
+
+
+def gen_twin_pairs(ctx, n):
+    """pairs (A, B) of equal, equal-hash nested values whose scalars have different types"""
+    rng = ctx.rng
+    out = []
+    tries = 0
+    while len(out) < n and tries < 20 * n:
+        tries += 1
+        grp = rng.choice(EQ_GROUPS)
+        shape = rng.choice(SHAPES)
+        tag = f"p{len(out)}_{ctx.seed}_{rng.randrange(10**6)}"
+        k = [0]
+        picksA, picksB = [], []
+
+        def mk(picks):
+            it = iter(picks)
+            return shape(lambda: next(it), tag)
+        # count holes
+        cnt = [0]
+
+        def counter():
+            cnt[0] += 1
+            return 0
+        shape(counter, tag)
+        picksA = [rng.choice(grp) for _ in range(cnt[0])]
+        picksB = [rng.choice(grp) for _ in range(cnt[0])]
+        if [type(x) for x in picksA] == [type(x) for x in picksB]:
+            continue
+        try:
+            A, B = mk(picksA), mk(picksB)
+            if A != B or hash(A) != hash(B):
+                continue
+        except TypeError:
+            continue
+        out.append((A, B))
+    return out
+
+
+def part_deep_type_values(ctx, U, use_driver=True):
+    """(1) deep_type vs the model on twins, adjacent in one process in both orders (A,B,A / B,A,B);
+       (2) the same values through a throw-away registry whose patterns distinguish the scalar types:
+           chosen rule == most specific pattern for the TRUE type key (model + history-free real dispatch)"""
+    rng = ctx.rng
+    pairs = gen_twin_pairs(ctx, 60 if ctx.tier == "quick" else 400)
+    T = typing
+    obj = object
+    pats = [("bool-range", T.Tuple[str, T.Tuple[bool, bool]]), ("int-range", T.Tuple[str, T.Tuple[int, int]]),
+            ("float-range", T.Tuple[str, T.Tuple[float, float]]), ("mixed-range", T.Tuple[str, T.Tuple[int, float]]),
+            ("any-range", T.Tuple[str, T.Tuple[obj, obj]]), ("fs-int", T.Tuple[str, T.FrozenSet[int]]),
+            ("fs-float", T.Tuple[str, T.FrozenSet[float]]), ("fs-any", T.Tuple[str, frozenset]),
+            ("pair-int", T.Tuple[int, int]), ("pair-float", T.Tuple[float, float]), ("pair-bool", T.Tuple[bool, bool]),
+            ("pair-any", T.Tuple[obj, obj]), ("tuple", tuple), ("frozenset", frozenset)]
+
+    def fresh():
+        r = KeyedRegistry(default=lambda *a: "default")
+        for nm, p in pats:
+            r.register(tuple, p)((lambda nm: (lambda *a: nm))(nm))
+        return r
+    ref = fresh().registry[tuple]
+    sigs = list(ref.funcs)
+    with warnings.catch_warnings():
+        warnings.simplefilter("ignore")
+        order0 = [sigs.index(x) for x in ref.ordering]
+    enc = [U.enc_sig(x) for x in sigs]
+    shared = fresh()          # one registry shared by all pairs: its cache sees every value in sequence
+    reqs, meta = [], []
+    for pi, (A, B) in enumerate(pairs):
+        a_first = pi % 2 == 0
+        seq = [A, B, A] if a_first else [B, A, B]
+        try:
+            want = [py_deep_type(U, v) for v in seq]
+        except (Unsupported, NotImplementedError):
+            ctx.count("twins:beyond-table")
+            continue
+        replay = PY_DEEPTYPE.format(a=vsrc(A), b=vsrc(B), a_first=a_first)
+        got = []
+        for v in seq:
+            try:
+                got.append(U.enc(deep_type(v)))
+            except NotImplementedError:
+                got.append(None)
+        ctx.count("twins:pairs")
+        for step, (g_, w_, v) in enumerate(zip(got, want, seq)):
+            if g_ != w_:
+                ctx.fail("input", "C16.deep_type-depends-on-history",
+                         witness=dict(sequence=[vsrc(x) for x in seq], step=step, value=vsrc(v),
+                                      deep_type=tshow(U, g_) if g_ else None, types_of_value=tshow(U, w_)),
+                         expected=tshow(U, w_), got=tshow(U, g_) if g_ else "NotImplementedError", python=replay)
+                return
+        if got[0] == got[1]:
+            ctx.count("twins:same-type-anyway")
+        # (2) dispatch on the same sequence: shared registry (cache carries over) and a fresh one
+        for reg, label in ((shared, "shared-registry"), (fresh(), "fresh-registry")):
+            for step, v in enumerate(seq):
+                rule = reg.dispatch(tuple, v)(v)
+                hf = ref.dispatch(typing_wrap(U.dec(want[step])))
+                hf = getattr(hf, "default", hf)(v)
+                ctx.count("twins:dispatches")
+                if rule != hf:
+                    ctx.fail("input", "C16.dispatch-depends-on-history",
+                             witness=dict(sequence=[vsrc(x) for x in seq], step=step, value=vsrc(v), registry=label,
+                                          true_type_key=tshow(U, want[step]), got_rule=rule, rule_for_true_key=hf),
+                             expected=hf, got=rule, python=replay)
+                    return
+        if use_driver:
+            for step, v in enumerate(seq[:2]):
+                reqs.append(f"C16 deeptype {real_vsx(real_val_tree(U, v))}")
+                meta.append(("dt", want[step], v))
+                reqs.append(f"C16 dispatchx ({' '.join(sigsx(e) for e in enc)}) ({' '.join(map(str, order0))}) ((w {tsx(want[step])}))")
+                f = ref.dispatch(typing_wrap(U.dec(want[step])))
+                meta.append(("dx", getattr(f, "default", f)(v), v))
+        ctx.case(sample=dict(A=vsrc(A), B=vsrc(B), types=[tshow(U, want[0]), tshow(U, want[1])]) if pi < 2 else None,
+                 nontrivial_key=("twin", vsrc(A), vsrc(B)))
+    if use_driver and reqs:
+        ans = ctx.driver.ask(reqs)
+        for a, (kind, w_, v) in zip(ans, meta):
+            if kind == "dt":
+                ctx.count("twins:deeptype-vs-model")
+                if a != "ok " + tsx(w_):
+                    ctx.fail("correspondence", "C16.deep_type-vs-model", witness=dict(value=vsrc(v), model=a, reference=tsx(w_)))
+                    return
+            else:
+                p = parse_sx("(" + a[3:] + ")") if a.startswith("ok ") else None
+                if p is None or isinstance(p[0], str):
+                    ctx.fail("correspondence", "C16.dispatch-vs-model", witness=dict(value=vsrc(v), model=a, real=w_))
+                    return
+                f = ref.funcs[sigs[int(p[0][1])]]
+                mrule = getattr(f, "default", f)(v)
+                ctx.count("twins:dispatch-vs-model")
+                if mrule != w_:
+                    ctx.fail("correspondence", "C16.dispatch-vs-model", witness=dict(value=vsrc(v), model_rule=mrule, real_rule=w_))
+                    return
+                if not p[3]:
+                    ctx.count("twins:no-least-pattern")
+
+
 def part_known_ambiguity(ctx, U, D, kf_cases):
     """dedicated stream for KF-precondition-ambiguous-patterns: two registered patterns overlap, neither
     is more specific, nothing more specific covers the overlap"""
@@ -2471,6 +2688,7 @@ def correspond(ctx):
     part_rebuilt_terms(ctx, U, D, clean)
     part_supercedes(ctx, U, D)
     part_container_registries(ctx, U)
+    part_deep_type_values(ctx, U)
     kf_cases = []
     r = part_dispatch(ctx, U, D, observed, kf_cases=kf_cases)
     part_known_ambiguity(ctx, U, D, kf_cases)
@@ -2513,6 +2731,9 @@ def search(ctx, broken):
         if found():
             return
         part_container_registries(ctx, U, use_driver=False)
+        if found():
+            return
+        part_deep_type_values(ctx, U, use_driver=False)
         if found():
             return
         r = part_dispatch(ctx, U, D, observed, use_driver=False)
